@@ -88,6 +88,26 @@ impl Routine for Backup {
         Ok(o)
     }
 
+    fn follow_up(_h: &BackupHist, dir: &Path) -> Option<Result<Obs, String>> {
+        // later session: the next compaction run starts a fresh journal object over whatever the
+        // crash left (new(), as compaction does), records two segments and is then read back
+        Some((|| {
+            let mut b = ExtractorCompactorBackup::new(dir);
+            b.record_segment(7).map_err(|e| format!("follow-up record_segment(7): {e}"))?;
+            b.record_segment(300).map_err(|e| format!("follow-up record_segment(300): {e}"))?;
+            drop(b);
+            // ... and a session that continues from what load returns
+            let mut o = Self::observe(_h, dir)?;
+            let mut c = ExtractorCompactorBackup::load(dir).map_err(|e| format!("follow-up load: {e}"))?.unwrap_or_else(|| ExtractorCompactorBackup::new(dir));
+            c.record_segment(9).map_err(|e| format!("follow-up record_segment(9): {e}"))?;
+            c.save().map_err(|e| format!("follow-up save: {e}"))?;
+            drop(c);
+            let again = Self::observe(_h, dir)?;
+            o.insert("journal-after-continued-session".into(), again.get("journal").cloned().unwrap_or_default());
+            Ok(o)
+        })())
+    }
+
     fn appends(site: &str) -> bool {
         site.starts_with("backup.record.")
     }
